@@ -51,7 +51,10 @@ type Eval struct {
 	// InScope says whether a static callee may be entered.
 	InScope func(fn *ssa.Function) bool
 	Entered map[string]bool // functions evaluated (for the evidence)
-	depth   int
+	// ErrorsAsBits: results of type error are reduced to the bit "non-nil";
+	// struct values built for them are not modelled (stores into them vanish)
+	ErrorsAsBits bool
+	depth        int
 }
 
 // Unsupported is the error for constructs outside the grammar (=> undecided).
@@ -185,12 +188,19 @@ func (e *Eval) call(fn *ssa.Function, args []Val) []Val {
 		k := [2]*ssa.BasicBlock{a, b}
 		edge[k] = m.Or(edge[k], f)
 	}
+	isErrType := func(t types.Type) bool { return e.ErrorsAsBits && t.String() == "error" }
 	get := func(v ssa.Value) Val {
 		if c, ok := v.(*ssa.Const); ok {
+			if c.Value == nil && isErrType(c.Type()) {
+				return BoolVal(0) // the nil error
+			}
 			return e.constVal(c)
 		}
 		if f, ok := v.(*ssa.Function); ok {
 			return Val{Kind: KOpaque, Name: "func:" + f.String()}
+		}
+		if g, ok := v.(*ssa.Global); ok && e.ErrorsAsBits {
+			return Val{Kind: KOpaque, Name: "global:" + g.Name()}
 		}
 		bv, ok := vals[v]
 		if !ok {
@@ -200,7 +210,20 @@ func (e *Eval) call(fn *ssa.Function, args []Val) []Val {
 	}
 	var results []Val
 	nres := fn.Signature.Results().Len()
+	isErrResult := func(i int) bool {
+		return e.ErrorsAsBits && i < nres && fn.Signature.Results().At(i).Type().String() == "error"
+	}
 	mergeResult := func(cond int, rs []Val) {
+		// an error result is the Boolean "non-nil"
+		for i := range rs {
+			if isErrResult(i) && rs[i].Kind != KBits {
+				if rs[i].Kind == KOpaque && rs[i].Name == "nil" {
+					rs[i] = BoolVal(0)
+				} else {
+					rs[i] = BoolVal(1)
+				}
+			}
+		}
 		if results == nil {
 			results = make([]Val, nres)
 			for i := range rs {
@@ -208,14 +231,43 @@ func (e *Eval) call(fn *ssa.Function, args []Val) []Val {
 				if z.Kind == KBits {
 					z.Bits = make([]int, len(rs[i].Bits))
 				}
+				if z.Kind == KArray {
+					el := make([][]int, len(z.Elems))
+					for k := range el {
+						el[k] = make([]int, len(z.Elems[k]))
+					}
+					z.Elems = el
+				}
 				results[i] = z
 			}
 		}
 		for i := range rs {
+			if rs[i].Kind == KArray {
+				// a value result selected by the path condition; the first array
+				// seen fixes the shape (an opaque zero value came first: adopt)
+				if results[i].Kind != KArray {
+					el := make([][]int, len(rs[i].Elems))
+					for k := range el {
+						el[k] = make([]int, len(rs[i].Elems[k]))
+					}
+					results[i] = Val{Kind: KArray, Elems: el}
+				}
+				if len(results[i].Elems) == len(rs[i].Elems) {
+					for k := range rs[i].Elems {
+						for b := range rs[i].Elems[k] {
+							results[i].Elems[k][b] = m.Or(results[i].Elems[k][b], m.And(cond, rs[i].Elems[k][b]))
+						}
+					}
+				}
+				continue
+			}
 			if rs[i].Kind != KBits {
-				// non-bit results (opaque/array) are only supported when all
+				// other non-bit results (opaque) are only supported when all
 				// returns agree structurally; keep the first.
 				continue
+			}
+			if results[i].Kind != KBits {
+				results[i] = Val{Kind: KBits, Bits: make([]int, len(rs[i].Bits)), Signed: rs[i].Signed}
 			}
 			if len(results[i].Bits) != len(rs[i].Bits) {
 				unsupported("result width mismatch in %s", fn.Name())
@@ -289,6 +341,11 @@ func (e *Eval) call(fn *ssa.Function, args []Val) []Val {
 					}
 					a.cell.arr[a.idx] = nw
 				case KCell:
+					if x.Kind != KBits && e.ErrorsAsBits {
+						xv := x
+						a.cell.val, a.cell.set = &xv, true
+						break
+					}
 					if a.cell.set && reach[b] != 1 {
 						if a.cell.val.Kind == KBits && x.Kind == KBits && len(a.cell.val.Bits) == len(x.Bits) {
 							nb := make([]int, len(x.Bits))
@@ -305,6 +362,23 @@ func (e *Eval) call(fn *ssa.Function, args []Val) []Val {
 				default:
 					unsupported("unsupported store %s in %s", v, fn.Name())
 				}
+			case *ssa.FieldAddr:
+				// a field of a local struct that is only built to be returned as an
+				// error (or of any value the evaluation does not model): a sink
+				if !e.ErrorsAsBits {
+					unsupported("unsupported instruction %T %s in %s", ins, ins, fn.Name())
+				}
+				vals[v] = Val{Kind: KCell, cell: &cell{}}
+			case *ssa.Lookup:
+				a := get(v.X)
+				i, ok := constIdx(v.Index)
+				if !ok || a.Kind != KSlice || v.CommaOk {
+					unsupported("unsupported lookup %s in %s", v, fn.Name())
+				}
+				if a.Lo+i >= a.Hi || i < 0 {
+					unsupported("index out of range in %s", fn.Name())
+				}
+				vals[v] = Val{Kind: KBits, Bits: a.Elems[a.Lo+i]}
 			case *ssa.IndexAddr:
 				a := get(v.X)
 				i, ok := constIdx(v.Index)
@@ -329,6 +403,11 @@ func (e *Eval) call(fn *ssa.Function, args []Val) []Val {
 			case *ssa.Index:
 				a := get(v.X)
 				i, ok := constIdx(v.Index)
+				if ok && a.Kind == KSlice && i >= 0 && a.Lo+i < a.Hi {
+					// a byte of a symbolic string
+					vals[v] = Val{Kind: KBits, Bits: a.Elems[a.Lo+i]}
+					continue
+				}
 				if !ok || a.Kind != KArray || i < 0 || i >= len(a.Elems) {
 					unsupported("unsupported index %s in %s", v, fn.Name())
 				}
@@ -342,6 +421,14 @@ func (e *Eval) call(fn *ssa.Function, args []Val) []Val {
 					el := make([][]int, len(x.cell.arr))
 					copy(el, x.cell.arr)
 					vals[v] = Val{Kind: KArray, Elems: el}
+				case v.Op == token.MUL && x.Kind == KOpaque && e.ErrorsAsBits:
+					if isErrType(v.Type()) {
+						vals[v] = BoolVal(1) // a package-level error value
+					} else {
+						vals[v] = Val{Kind: KOpaque, Name: "load:" + x.Name}
+					}
+				case v.Op == token.MUL && x.Kind == KCell && x.cell.set && x.cell.val.Kind != KBits:
+					vals[v] = *x.cell.val
 				case v.Op == token.MUL && x.Kind == KCell:
 					if !x.cell.set {
 						// zero value
@@ -423,7 +510,11 @@ func (e *Eval) call(fn *ssa.Function, args []Val) []Val {
 			case *ssa.ChangeType:
 				vals[v] = get(v.X)
 			case *ssa.MakeInterface:
-				vals[v] = get(v.X)
+				if isErrType(v.Type()) {
+					vals[v] = BoolVal(1) // a non-nil error
+				} else {
+					vals[v] = get(v.X)
+				}
 			case *ssa.BinOp:
 				vals[v] = e.binop(fn, v, get(v.X), get(v.Y))
 			case *ssa.Phi:
@@ -787,6 +878,21 @@ func (e *Eval) binop(fn *ssa.Function, v *ssa.BinOp, x, y Val) Val {
 		return bitwise(m.Xor)
 	case token.AND_NOT:
 		return bitwise(func(a, b int) int { return m.And(a, m.Not(b)) })
+	case token.MUL:
+		// shift-and-add over the bits of y (exact modulo 2^w, like the machine)
+		w := len(x.Bits)
+		acc := make([]int, w)
+		for i := 0; i < w; i++ {
+			if y.Bits[i] == 0 {
+				continue
+			}
+			sh := make([]int, w)
+			for k := i; k < w; k++ {
+				sh[k] = m.And(x.Bits[k-i], y.Bits[i])
+			}
+			acc = e.add(acc, sh, 0)
+		}
+		return Val{Kind: KBits, Bits: acc, Signed: signed}
 	case token.ADD:
 		return Val{Kind: KBits, Bits: e.add(x.Bits, y.Bits, 0), Signed: signed}
 	case token.SUB:
@@ -950,4 +1056,11 @@ func (e *Eval) expr(v ssa.Value, env map[ssa.Value]Val, depth int) Val {
 	}
 	unsupported("unsupported leaf %s", v)
 	return Val{}
+}
+
+// StringInput makes a string (or []byte) of n bytes whose bits are variables
+// base .. base+8n-1, most significant bit of byte 0 first.
+func (e *Eval) StringInput(base, n int) Val {
+	a := e.ArrayInput(base, n)
+	return Val{Kind: KSlice, Elems: a.Elems, Lo: 0, Hi: n}
 }
